@@ -122,6 +122,16 @@ def one_run(n=10, batch_size=None, batch_seed=3, max_iter=40, patience=5, atol=1
         sv += [fstr(x) for x in np.ravel(np.asarray(res.model_state["mu_value"].value, np.float32))]
         rv += [fstr(x) for x in np.ravel(np.asarray(ref["mu_value"].value, np.float32))]
         ev["state_vals"], ev["recomputed_vals"] = sv, rv
+        # the recorded validation loss is the validation model's negative log-probability at the recorded position
+        vmodel = build_model(max(4, n // 2), seed + 100) if validation else build_model(n, seed)
+        viface = gs.LieselInterface(vmodel)
+        vstate = vmodel.state
+        nv = max(4, n // 2) if validation else n      # the log-likelihood is scaled to the size of the training data
+
+        def vloss(row):
+            st = viface.update_state({"coef": jnp.asarray(row)}, vstate)
+            return -(np.float32(n / nv) * st["_model_log_lik"].value + st["_model_log_prior"].value)
+        ev["loss_validation_recomputed"] = [fstr(np.float32(vloss(row))) for row in hp[: it + 1]]
         recs = [json.loads(line) for line in open(path)] if os.path.getsize(path) else []
         recs = sorted((r for r in recs if r["event"] == "optim_batches"), key=lambda r: r["while_i"])
         ev["batches"] = [{"i": int(r["while_i"]), "subkey": f"{r['subkey'][0]}:{r['subkey'][1]}",
